@@ -618,6 +618,70 @@ func TestVerif_C11_tx(t *testing.T) {
 		func(c C11TxCase) kit.Verdict { return VerifC11InterpTx(c, c11RunTx) })
 }
 
+// c11EnumerateTx yields every transaction case with at most maxStmts
+// statements: every entry point x every statement list (kind x {ok, fault
+// returned, fault ignored, fault turned into a panic}) x every final outcome
+// (nil, error, three panic values) x every Begin fault x Commit fault x Rollback fault.
+func c11EnumerateTx(maxStmts int) func(yield func(C11TxCase) bool) {
+	var stmtOpts []C11Stmt
+	for _, k := range []string{"exec", "query", "prep"} {
+		stmtOpts = append(stmtOpts, C11Stmt{K: k})
+		for _, r := range []string{"ret", "ign", "panic"} {
+			stmtOpts = append(stmtOpts, C11Stmt{K: k, F: true, R: r})
+		}
+	}
+	type out struct{ o, pv string }
+	outs := []out{{"nil", ""}, {"err", ""}, {"panic", "err"}, {"panic", "str"}, {"panic", "rt"}}
+	return func(yield func(C11TxCase) bool) {
+		var rec func(prefix []C11Stmt, left int) bool
+		emit := func(stmts []C11Stmt) bool {
+			for _, e := range []string{"transact", "transactctx", "onconn", "newconn"} {
+				for _, o := range outs {
+					for _, fb := range []string{"", "begin", "connect"} {
+						if fb == "connect" && e == "newconn" {
+							continue
+						}
+						for _, fc := range []bool{false, true} {
+							for _, fr := range []bool{false, true} {
+								c := C11TxCase{Entry: e, Stmts: append([]C11Stmt(nil), stmts...), Out: o.o, PanicV: o.pv,
+									FBegin: fb, FCommit: fc, FRollback: fr}
+								if !yield(c) {
+									return false
+								}
+							}
+						}
+					}
+				}
+			}
+			return true
+		}
+		rec = func(prefix []C11Stmt, left int) bool {
+			if !emit(prefix) {
+				return false
+			}
+			if left == 0 {
+				return true
+			}
+			for _, so := range stmtOpts {
+				if !rec(append(append([]C11Stmt(nil), prefix...), so), left-1) {
+					return false
+				}
+			}
+			return true
+		}
+		rec(nil, maxStmts)
+	}
+}
+
+func TestVerif_C11_txexhaustive(t *testing.T) {
+	max := 2
+	if kit.Thorough() {
+		max = 3
+	}
+	kit.Enumerate(t, "C11", "tx-exhaustive", c11EnumerateTx(max),
+		func(c C11TxCase) kit.Verdict { return VerifC11InterpTx(c, c11RunTx) })
+}
+
 // ---------------------------------------------------------------------------
 // rule 2: rows
 // ---------------------------------------------------------------------------
@@ -642,7 +706,7 @@ type C11Col struct {
 
 // C11RowsCase is one query: session kind, call form, destination, result set.
 type C11RowsCase struct {
-	Sess    string     `json:"s"`              // conn | tx | stmt | txstmt (ext: cached)
+	Sess    string     `json:"s"`              // conn | tx | stmt | txstmt | rawtx (ext: cached)
 	Ctx     bool       `json:"x,omitempty"`    // ...Ctx form
 	Single  bool       `json:"one,omitempty"`  // QueryRow* (else QueryRows*)
 	Partial bool       `json:"part,omitempty"` // *Partial form (non-strict)
@@ -1065,7 +1129,7 @@ func c11CallStmt(c C11RowsCase, s StmtSession, v any) error {
 }
 
 // C11RowsSessions are the session kinds of the in-package unit.
-var C11RowsSessions = []string{"conn", "conn", "tx", "stmt", "txstmt"}
+var C11RowsSessions = []string{"conn", "conn", "tx", "stmt", "txstmt", "rawtx"}
 
 func c11RunQuery(c C11RowsCase, db *sql.DB, v any) error {
 	conn := NewConnFromDB(db)
@@ -1079,6 +1143,13 @@ func c11RunQuery(c C11RowsCase, db *sql.DB, v any) error {
 		}
 		defer st.Close()
 		return c11CallStmt(c, st, v)
+	case "rawtx":
+		tx, err := db.Begin()
+		if err != nil {
+			return fmt.Errorf("c11 harness: begin: %w", err)
+		}
+		defer tx.Rollback()
+		return c11CallSession(c, NewSessionFromTx(tx), v)
 	case "tx", "txstmt":
 		var qerr error
 		terr := conn.Transact(func(s Session) error {
